@@ -245,4 +245,7 @@ def run(ctx) -> Result:
                            "ids only through comparisons and +-1 shifts, so universes of <= 4 elements realise every "
                            "guard combination (alone / not alone, first / last bucket, neighbours of size 1 / >1)")
     res.not_decided.append("floating-point accumulation error of the delta arrays")
+    if not res.violations:      # the end-to-end pass adds nothing to an established violation (and may not terminate on it)
+        from . import e2e
+        e2e.check(res, ctx.proj, "C08", ctx.thorough)
     return res
